@@ -1,7 +1,7 @@
 (* C07 — the instances run inside the generic theory, and the generated tables of the current tree
    satisfy its side conditions (vm_compute; re-checked whenever the translator output changes). *)
 From Coq Require Import String.
-From DS Require Import Base.Prelude Model.LdgLedger Model.LdgInst Proofs.LdgLedger Gen.LdgLedger.
+From DS Require Import Base.Prelude Model.LdgLedger Model.LdgInst Proofs.LdgLedger Proofs.LdgQuiesce Gen.LdgLedger.
 Open Scope string_scope.
 Open Scope Z_scope.
 Open Scope list_scope.
@@ -130,6 +130,22 @@ Theorem clean_acu init l0 evs st :
   blocking_alive (stop tbl_acu (snd st)) = [].
 Proof. intros _ Hb. apply (inst_clean acu_op tbl_acu init); [exact ok_acu | exact Hb]. Qed.
 
+(* totalpower: system_stop of the current tree sets the stop flag or closes the data socket, after
+   which the chains end *)
+Lemma totalpower_stop_quiet c l st :
+  istep tp_op tbl_totalpower (c, l) TpSysStop = Some st -> tp_quiet (fst st) = true.
+Proof. apply tp_sysstop_quiet. vm_compute. reflexivity. Qed.
+
+Theorem totalpower_chains_end_after_stop c l st1 evs st :
+  istep tp_op tbl_totalpower (c, l) TpSysStop = Some st1 ->
+  forallb tp_is_fire evs = true -> iruns tp_op tbl_totalpower st1 evs = Some st ->
+  (List.length evs + wt (l_live (snd st)) <= wt (l_live (snd st1)))%nat.
+Proof.
+  intros H1 Hf Hr. destruct st1 as [c1 l1].
+  pose proof (totalpower_stop_quiet c l (c1, l1) H1) as Hs. cbn in Hs.
+  exact (proj2 (tp_stopped_chains_end tbl_totalpower evs c1 l1 st Hs Hf Hr)).
+Qed.
+
 (* hypotheses are satisfiable: the boot sequences of the current tables run *)
 Example boot_minor_servos_runs :
   exists init l0, mv_boot tbl_minor_servos true = Some init /\ boot tbl_minor_servos init = Some l0
@@ -141,6 +157,12 @@ Example totalpower_streaming_is_stopped :
                [TpX true false; TpResume; TpFire 1 false; TpResume; TpStop; TpSysStop] = Some st
              /\ alive_ids (snd st) <> [] /\ blocking_ids (snd st) = [].
 Proof. eexists. split; [vm_compute; reflexivity|]. split; vm_compute; congruence. Qed.
+
+Example totalpower_chain_ends :   (* streaming, stopped, the armed timer was cancelled: nothing can fire *)
+  exists st, iruns tp_op tbl_totalpower (tp_init_ctrl, empty_ledger)
+               [TpX true false; TpResume; TpFire 1 false; TpSysStop] = Some st
+             /\ wt (l_live (snd st)) = 0%nat.
+Proof. eexists. split; vm_compute; reflexivity. Qed.
 
 Example mscu_setup_twice_one_timer :
   exists st, iruns ms_op tbl_mscu (tt, empty_ledger) [MsSetup 1; MsSetup 1; MsSetup 2] = Some st
